@@ -29,7 +29,7 @@ def run(pid, part, tier, seed, tmp, extra=None):
         cmd += ["-solver2", "cvc5"]
     if extra:
         cmd += extra
-    rc, out, dt = driver.sh(cmd, cwd=E1DIR, timeout=part.get("timeout", {"quick": 1800, "thorough": 6 * 3600})[tier])
+    rc, out, dt = driver.sh(cmd, cwd=E1DIR, timeout=part.get("timeout", {"quick": 1800, "thorough": 6 * 3600})[tier], limit=True)
     if rc != 0 or not os.path.exists(outp):
         return {"engine": "E1 ssaexec", "part": name, "tool_error": "ssaexec exited %d:\n%s" % (rc, out[-2000:])}
     rep = json.load(open(outp))
